@@ -10,6 +10,7 @@ import PetgraphModel.Proofs.C03W4Ordered
 import PetgraphModel.Proofs.C03W4Perm
 import PetgraphModel.Proofs.C03W4Index
 import PetgraphModel.Proofs.C03W4Checks
+import PetgraphModel.Proofs.C03W6
 /-
 C03 — `GraphMap` is a simple graph keyed by node value under every history.
 
@@ -555,5 +556,90 @@ example :
     C03Dump.dumpOkB (specRun (SG.empty true) [.addEdge 0 1 5]) 2
       { C03Dump.modelDumpS (run (State.empty true) [.addEdge 0 1 5]).1 2 with ni := [some 1, some 0] } = false := by
   decide
+
+/-! ## wave 6 — the corners of the public surface
+
+The harness now addresses everything public in graphmap.rs / the `GraphMap` impls of data.rs (docs/C03_api.md).
+What has state-dependent semantics of its own got a model reading (`from_elements` on arbitrary element
+sequences, below); everything else is a LAW that equates the entry point with calls the theorems above cover
+(`law …` protocol lines: the driver accepts `ok` only and never moves its machines for them). -/
+
+open PetgraphModel.C03 (Elem fromElemsGo fromElemsOps elemNodes) in
+/-- `FromElements for GraphMap` (`data.rs::from_elements_indexable`: `add_node` per node element; per edge element two
+`from_index` look-ups — an `assert!`, i.e. a panic, for a position that does not exist at that moment — and
+`Build::add_edge`), transcribed on the mirror model (`C03W6.fromElemsModel`), is exactly the call list the driver
+derives from the element list alone: panic for panic, final state for final state, for EVERY element list and
+from every state (the call starts from a fresh graph).  No side condition. -/
+theorem C03_from_elems_is_the_indexable_loop (s : State) (el : List Elem) :
+    (fromElemsOps el).map (fun ops => (run s ops).1) = C03W6.fromElemsModel (State.empty s.directed) el :=
+  C03W6.fromElemsOps_model s el
+
+open PetgraphModel.C03 (Elem fromElemsGo fromElemsOps elemNodes) in
+/-- the documentation of `Element` ("nodes are implicitly given the index of their appearance in the sequence"; what
+the default `FromElements::from_elements` does with its `map` vector — `C03W6.fromElemsDoc`) and the indexable loop
+make the same calls when the node weights are distinct. -/
+theorem C03_from_elems_documented_positions (el : List Elem) (h : (elemNodes el).Nodup) :
+    fromElemsGo [] el = C03W6.fromElemsDoc [] el :=
+  C03W6.fromElemsGo_doc el h
+
+open PetgraphModel.C03 (Elem fromElemsGo fromElemsOps elemNodes) in
+/-- … and the hypothesis cannot be dropped: with a repeated node weight the positions shift (the repeated node is
+not inserted again), and the edge element `1 → 2` of `[5, 5, 7, 9]` joins `7 → 9` in the indexable loop but
+`5 → 7` in the documented reading (observed on /repo: `DiGraphMap::from_elements` gives `[(7, 9, 1)]`,
+`DiGraph::from_elements` the edge `5 → 7`).  Hence the driver's side condition below. -/
+theorem C03_from_elems_duplicates_false_witness :
+    ¬ (∀ el : List Elem, fromElemsGo [] el = C03W6.fromElemsDoc [] el) := by
+  intro h
+  have h1 := C03W6.doc_differs_witness
+  rw [h] at h1
+  exact absurd (h1.1.symm.trans h1.2) (by decide)
+
+open PetgraphModel.C03 (Elem fromElemsGo fromElemsOps elemNodes) in
+/-- the nodes-first form of waves 1–5 (`from_elements <weights> <edges>`) is the special case: same call list. -/
+theorem C03_from_elems_nodes_first (ws : List Nat) (es : List (Nat × Nat × Nat)) (hn : ws.Nodup)
+    (h : ∀ e ∈ es, e.1 < ws.length ∧ e.2.1 < ws.length) :
+    fromElemsOps (ws.map Elem.node ++ es.map fun e => Elem.edge e.1 e.2.1 e.2.2) = some (C03.fromElementsOps ws es) :=
+  C03W6.fromElemsOps_nodes_first ws es hn h
+
+/-! ### run-time checks of the hypotheses (wave 6) -/
+
+open PetgraphModel.C03 (Elem fromElemsGo fromElemsOps elemNodes) in
+/-- the Boolean the driver evaluates on every `from_elems` line (a failure: `SPECFAIL generator left the proved
+range`) decides the hypothesis of `C03_from_elems_documented_positions` -/
+theorem C03_from_elems_nodup_check (el : List Elem) (h : nodupB (elemNodes el) = true) : (elemNodes el).Nodup :=
+  (GMJudge.nodupB_iff _).1 h
+
+/-- a `law` line never moves the driver's machines; `ok` is the only answer that is not a `SPECFAIL`; an
+`instances` line (the same history under other node / weight types) is compared with `same`. -/
+theorem C03_law_lines (d : C03.DState) (r : List String) (impl : String) :
+    (C03.step d ("law" :: r) impl).1 = d ∧
+    (impl = "ok" → (C03.step d ("law" :: r) impl).2 = "ok") ∧
+    (impl ≠ "ok" → ∃ why, (C03.step d ("law" :: r) impl).2 = C03.verdict (some why) "ok" impl) ∧
+    C03.step d ["instances"] impl = (d, cmpExact "same" impl) :=
+  ⟨(C03W6.law_line d r impl).1, (C03W6.law_line d r impl).2.1, (C03W6.law_line d r impl).2.2,
+   C03W6.instances_line d impl⟩
+
+/-! non-vacuity of the wave-6 statements -/
+-- an interleaved element sequence with distinct weights: the calls, and a dangling position = panic
+example :
+    C03.fromElemsOps [.node 3, .edge 0 0 13, .node 6, .edge 1 0 50, .node 0] =
+      some [.clear, .addNode 3, .buildAddEdge 3 3 13, .addNode 6, .buildAddEdge 6 3 50, .addNode 0] ∧
+    C03.fromElemsOps [.node 3, .edge 0 1 13, .node 6] = none ∧
+    (C03.elemNodes [.node 3, .edge 0 0 13, .node 6, .edge 1 0 50, .node 0]).Nodup := by decide
+-- … run on the mirror model, from a non-empty state
+example :
+    (C03W6.fromElemsModel (State.empty true) [.node 3, .edge 0 0 13, .node 6, .edge 1 0 50, .node 0]).map allEdges
+      = some [(3, 3, 13), (6, 3, 50)] := by decide
+example : nodupB (C03.elemNodes [.node 5, .node 5, .node 7]) = false ∧
+    nodupB (C03.elemNodes [.node 5, .edge 0 0 1, .node 7]) = true := by decide
+-- the driver on real protocol lines: `ok` is accepted, anything else is a SPECFAIL verdict; a `from_elems`
+-- line keeps the driver in scope
+example : (C03.step {} ["law", "iter", "s=1"] "ok").2 = "ok" := (C03_law_lines {} _ "ok").2.1 rfl
+example : ∃ why, (C03.step {} ["law", "iter", "s=1"] "VIOLATED nodes(): nth_back(1)").2 =
+    C03.verdict (some why) "ok" "VIOLATED nodes(): nth_back(1)" :=
+  (C03_law_lines {} _ _).2.2.1 (by decide)
+example : C03W4.InScope
+    (C03.step (C03.step {} ["case", "1", "dir", "k=7"] "").1 ["from_elems", "n3,e0:0:13,n6,e1:0:50"] "ok").1 :=
+  C03_driver_in_scope.2 _ _ _ (C03_driver_in_scope.2 _ _ _ C03_driver_in_scope.1)
 
 end PetgraphModel.C03T
